@@ -741,6 +741,42 @@ def cluster_monoexons_level():
     return n, bad
 
 
+def cluster_introns_level():
+    """IntronCollector.cluster_introns on two or three unannotated introns that are similar (within the clustering distance) with counts
+       1..3: the substitution map and the clustered counts of the mirrored introns must be the mirror image"""
+    import src.intron_graph as IG
+    from types import SimpleNamespace
+    L = 10000
+    base = (1201, 1500)
+    variants = [(1204, 1500), (1201, 1503), (1204, 1503), (1198, 1500), (1204, 1497)]
+    bad = []
+    n = 0
+
+    def run_(introns):
+        c = IG.IntronCollector.__new__(IG.IntronCollector)
+        c.delta = 6
+        c.known_introns = set()
+        c.clustered_introns = collections.defaultdict(int)
+        c.intron_correction_map = {}
+        c.discarded_introns = set()
+        c.cluster_introns(dict(introns), 1)
+        return dict(c.clustered_introns), dict(c.intron_correction_map)
+    mi = lambda x: (L - x[1], L - x[0])
+    for k in (1, 2):
+        for vs in itertools.combinations(variants, k):
+            for counts in itertools.product((1, 2, 3), repeat=k + 1):
+                n += 1
+                introns = dict(zip((base,) + vs, counts))
+                a = run_(introns)
+                b = run_({mi(i): c for i, c in introns.items()})
+                back = ({mi(i): c for i, c in b[0].items()}, {mi(i): mi(j) for i, j in b[1].items()})
+                if a != back:
+                    tie = len(set(counts)) < len(counts)
+                    bad.append(("tie" if tie else "other", (introns,), "introns with counts %s: clustered %s, substitutions %s; the mirror image gives "
+                                "(mapped back) clustered %s, substitutions %s" % (introns, a[0], a[1], back[0], back[1])))
+    return n, bad
+
+
 def thread_ends_level():
     """IntronPathProcessor.thread_ends vs thread_starts on mirrored graphs: last intron (100,200) with every subset of terminal vertices
        out of two polyA and two read-end positions, with / without a following intron, every read end on a grid, trusted or not"""
@@ -800,6 +836,12 @@ def run(ctx):
         ctx.violation("l0:tail-clusters-%s" % ("order-dependent" if kind_ == "order" else "not-mirrored"), msg,
                       {"positions": list(case_[0]), "counts": list(case_[1]), "annotated_end": case_[2]})
     ctx.note("L0 tail clusters: %d (positions, counts, annotated end, insertion order) cases through the real cluster_polya_positions" % n_cp)
+    n_ci, bad_ci = cluster_introns_level()
+    for kind_ in ("tie", "other"):
+        for k_, case_, msg in [b for b in bad_ci if b[0] == kind_][:2]:
+            ctx.violation("l0:intron-clusters-not-mirrored" + (":count-tie" if kind_ == "tie" else ""), msg,
+                          {"introns": [[list(i), c] for i, c in case_[0].items()]})
+    ctx.note("L0 intron clusters: %d sets of similar unannotated introns with counts through the real cluster_introns, input vs mirror image" % n_ci)
     n_cm, bad_cm = cluster_monoexons_level()
     for kind_, case_, msg in bad_cm[:3]:
         ctx.violation("l0:monoexon-clusters-%s" % ("order-dependent" if kind_ == "order" else "not-mirrored"), msg,
